@@ -207,7 +207,7 @@ impl<
             // sequence != free_list_head, then we need to add the new nodes to the free
             // list since there are free nodes available
             if sequence != free_list_head {
-                for i in current..nodes.len() as u8 {
+                for i in (sequence - 1)..nodes.len() as u8 {
                     // nodes are indexed starting from 1
                     let index = i + 1;
                     let node = &mut node!(nodes, index);
